@@ -21,9 +21,7 @@ EXPLANATION = (
     "pow10_[i] = 10^i. NOT decided: rounding and parse accuracy of the floating conversions.")
 
 
-def run(ctx):
-    prog = Program(UNITS)
-    ctx.units.update(UNITS)
+def sign_rule(ctx, prog, rid):
     # ---------------- R08.1 sign alphabet
     prints = [f for f in prog.all_functions() if f.qp == 'FIX8::Field::print' and f.rec and f.rec.startswith('FIX8::Field<int,') and f.sig.startswith('size_t (char *)')]
     ctors = [f for f in prog.all_functions() if f.kind == 'ctor' and f.rec and f.rec.startswith('FIX8::Field<int,') and 'const char *' in f.sig]
@@ -49,10 +47,16 @@ def run(ctx):
                           for n in pf.all_nodes())
     else:
         pf, tests_minus = None, True
-    ctx.check((not emits_minus) or tests_minus, 'R08.1', 'FIX8::fast_atoi<int>#sign', (pf or ct).loc,
+    ctx.check((not emits_minus) or tests_minus, rid, 'FIX8::fast_atoi<int>#sign', (pf or ct).loc,
               'the integer parser accepts the minus sign the renderer can emit',
               'itoa<int> renders negative values with a leading \'-\' but %s never tests for one: "-5" parses as %d'
               % (pc.callee_q, ((0 * 10 + (45 - 48)) * 10 + 5)))
+
+
+def run(ctx):
+    prog = Program(UNITS)
+    ctx.units.update(UNITS)
+    sign_rule(ctx, prog, 'R08.1')
     # ---------------- R08.2 itoa digit table
     for fi in [f for f in prog.fns('FIX8::itoa') if f.tmpl in ('inst', 'spec')][:4]:
         ctx.saw(fi)
